@@ -28,6 +28,7 @@ pub enum WErr
     NotGenerated(String),
     CmdErrored,
     Contradiction(Vec<String>),
+    NoCommand,
     Other(String),
 }
 
@@ -53,6 +54,7 @@ pub fn summarize_work(e: &WorkError) -> WErr
         WorkError::FileNotFound(p) => WErr::FileNotFound(p.clone()),
         WorkError::TargetFileNotGenerated(p) => WErr::NotGenerated(p.clone()),
         WorkError::CommandExecutedButErrored => WErr::CmdErrored,
+        WorkError::NoCommandExecuted => WErr::NoCommand,
         WorkError::Contradiction(v) => { let mut v = v.clone(); v.sort(); WErr::Contradiction(v) }
         other => WErr::Other(format!("{}", other)),
     }
@@ -506,6 +508,7 @@ impl World
                     r.targets.push(t.clone());
                     let srcs = r.sources.clone();
                     let ins = Instr::EmitMix { t: t.clone(), tag: format!("T{}", t.replace('/', "_")), srcs };
+                    if r.script.is_empty() { r.script.push(vec![]); }
                     r.script.last_mut().unwrap().push(ins);
                     Applied::UserAction(format!("add target {} to rule {}", t, ri))
                 }
@@ -534,6 +537,8 @@ impl World
                     }
                     else
                     {
+                        self.retags += 1;
+                        let uniq = self.retags;
                         let r = &mut self.model.rules[ri];
                         r.targets.retain(|x| *x != t);
                         for chain in r.script.iter_mut()
@@ -543,7 +548,7 @@ impl World
                         r.script.retain(|c| !c.is_empty());
                         if r.script.is_empty()
                         {
-                            r.script.push(vec![Instr::Nop { tag: "empty".to_string() }]);
+                            r.script.push(vec![Instr::Nop { tag: format!("e{}", uniq) }]);
                         }
                         Applied::UserAction(format!("remove target {} from rule {}", t, ri))
                     }
